@@ -7,8 +7,8 @@ LEVEL = 'exploration'
 RULE = ('every ordered pair (g1, g2) of HRGs from a bounded family over shared node ids v0,v1 and nonterminal-edge ids '
         'e0,e1 (1-2 start rules out of 6 skeleton/labelling instances, 0-1 rule for X out of 4, one rule for Y, rules '
         'for a binary nonterminal W with externals in both orders) x nonterminal naming schemes (plain; the '
-        '"X"+"Y,Z" / "X,Y"+"Z" clash; a terminal literally named like a pair; a shared terminal name with equal / '
-        'different type) x edge insertion order reversed in g2: the multiset of derivations (depth <= d) of '
+        '"X"+"Y,Z" / "X,Y"+"Z" clash; a terminal literally named like a pair; all natural pair names and their _1 variants taken; a shared terminal '
+        'name with equal / different type; a production listed twice) x edge insertion order reversed in g2: the multiset of derivations (depth <= d) of '
         'conjoin_hrgs(g1,g2) must equal the multiset of conjoinable pairs of derivations, computed by the harness '
         'from g1 and g2; paired names distinct and fresh; ValueError exactly for a genuine terminal conflict. '
         'Non-trivial = pair with >= 1 paired derivation.')
@@ -37,7 +37,7 @@ ARITY = {'S': 0, 'X': 1, 'Y': 1, 'W': 2}
 
 def bounds(tier):
     return {'derivation_depth': 3 if tier == 'quick' else 4, 'start_rules': '1-2 of 6', 'X_rules': '0-1 of 4',
-            'naming_schemes': 5, 'edge_orders': 2}
+            'naming_schemes': 7, 'edge_orders': 2}
 
 
 def family():
@@ -50,7 +50,7 @@ def family():
     return out
 
 
-SCHEMES = ('plain', 'clash', 'terminal-named-like-pair', 'shared-terminal-same-type', 'shared-terminal-other-type')
+SCHEMES = ('plain', 'clash', 'terminal-named-like-pair', 'shared-terminal-same-type', 'shared-terminal-other-type', 'pair-and-suffix-taken', 'duplicate-production')
 
 
 def gen_cases(tier, seed):
@@ -81,6 +81,12 @@ def mk(side, spec, scheme, reverse, wrules):
     g = HRG(L['S'])
     for k in ('X', 'Y', 'W'):
         g.add_edge_label(L[k])
+    if scheme == 'pair-and-suffix-taken':
+        # the natural paired names and their first suffixed variants are all taken by terminals
+        for a in ('S', 'X', 'Y', 'W'):
+            for b in ('S', 'X', 'Y', 'W'):
+                nm = '<%s,%s>' % (a, b) + ('' if side == 1 else '_1')
+                g.add_edge_label(EdgeLabel(nm, [], is_terminal=True))
     tag = 'a' if side == 1 else 'b'
     rules = []
     plan = [('S', S_RULES[i], i) for i in spec[0]] + [('X', X_RULES[i], i) for i in spec[1]] + \
@@ -107,7 +113,10 @@ def mk(side, spec, scheme, reverse, wrules):
             r.add_edge(Edge(L[role], [V[v] for v in att], id=eid))
         if not reverse:
             r.add_edge(tedge)
-        g.add_rule(HRGRule(L[lhs], r))
+        rule = HRGRule(L[lhs], r)
+        g.add_rule(rule)
+        if scheme == 'duplicate-production' and side == 1 and lhs == 'S':
+            g.add_rule(rule)      # the same production listed twice: two derivations
     return g
 
 
